@@ -70,6 +70,26 @@ CLAIMED.update({
         note=TRUST),
 })
 
+CLAIMED.update({
+    "C13": dict(
+        technique="bounded symbolic execution of the real source (symx) + SMT (z3) over symbolic strings",
+        text="SequenceParameters(str) executed symbolically on strings of symbolic characters (128 ASCII + non-ASCII behaviour-class representatives): on every path, "
+             "accepted <=> the upper-cased, whitespace-free string is a non-empty word over the 20 letters; then sequence, length, len() and the complete object state equal those of an "
+             "object built from the normalised word; non-strings rejected. Bounded by string length.",
+        note=TRUST + "Each character case is a real Python str, so upper()/isspace() are CPython's."),
+    "C16": dict(
+        technique="inductive step: symbolic execution of one API call from an arbitrary valid state (symx) + SMT (z3); unbounded symbolic integer positions",
+        text="From an arbitrary duplicate-free list of valid sites on a symbolic sequence, one set_phosphosites call with unbounded symbolic integer positions (int, list, tuple) "
+             "or clear is executed symbolically; z3 proves the stored list is previous ++ requested in-range S/T/Y positions in order without repeats, no exception for any integer, "
+             "sequence unchanged, phosphosequence has E exactly there; kappa_after and the 2^k distribution are the getters of the substituted sequences in binary order.",
+        note=TRUST + "kappa of derived sequences is an uninterpreted function of the derived string in this check."),
+    "C20": dict(
+        technique="bounded symbolic execution of the real source (symx) + SMT (z3); inductive step for the palette",
+        text="get_HTMLColorString executed symbolically on symbolic sequences with an arbitrary valid palette: the string equals the expected markup piece by piece; "
+             "set_HTMLColorResiduePalette with symbolic dictionaries from an arbitrary valid palette: accepted <=> total mapping onto the 17 names, then palette == dictionary; rejected => exception and palette unchanged.",
+        note=TRUST),
+})
+
 REASON_PENDING = "check not built yet (framework under construction); see DESIGN.md section 5 for the plan"
 
 
